@@ -58,6 +58,14 @@ struct Tree {
 }
 
 typedef i64 Id
+typedef Color Paint
+typedef Id AccountId
+
+struct Aliases {
+  1: required Paint paint,
+  2: optional AccountId account,
+  3: i32 plain,
+}
 
 exception Oops {
   1: string why,
